@@ -1,6 +1,7 @@
 //! `lv <Cnn> <quick|thorough> [--replay FILE] [--cases N] [--seed N] [--strict]`
 #[macro_use]
 pub mod engine;
+pub mod probe;
 pub mod props;
 pub mod store;
 pub mod model;
@@ -15,6 +16,11 @@ fn main() {
         std::process::exit(2);
     }
     let reg = props::registry();
+    if args[0] == "probe" {
+        engine::install_panic_hook();
+        probe::run(&args[1]);
+        return;
+    }
     if args[0] == "list" {
         for p in &reg {
             println!("{}", p.id());
